@@ -39,6 +39,7 @@ type Spec struct {
 	Assumptions []string  `json:"assumptions"`
 	Outside     []string  `json:"outside_the_claim"`
 	Stubs       []string  `json:"stubs"`
+	Parts       []Spec    `json:"parts"` // a property spanning several packages: one part per package
 }
 
 type KnownFinding struct {
@@ -132,17 +133,9 @@ func runCheck(prop, tier string, seed int64, only string) int {
 		"zz_verif_rt.go":     readRT("rt_engine.go.tmpl"),
 		"zz_verif_common.go": readRT("rt_common.go.tmpl"),
 	}
-	var hfiles []string
-	for _, h := range spec.Harness {
-		hfiles = append(hfiles, filepath.Join(verifDir, h))
-	}
-	ov, err := harnessOverlay(spec.Package, spec.PkgName, rt, hfiles)
-	if err != nil {
-		fatal2(err.Error())
-	}
-	eng, err := LoadEngine(spec.Package, ov)
-	if err != nil {
-		fatal2(err.Error())
+	parts := spec.Parts
+	if len(parts) == 0 {
+		parts = []Spec{spec}
 	}
 	known := loadKnown()
 	var results []*entryResult
@@ -151,104 +144,126 @@ func runCheck(prop, tier string, seed int64, only string) int {
 	knownHits := 0
 	var vioLines []string
 	var replayed int
-	for _, rs := range spec.Runs {
-		if only != "" && rs.Entry != only {
-			continue
+	var eng *Engine
+	var loadT time.Duration
+	for pi := range parts {
+		part := &parts[pi]
+		var hfiles []string
+		for _, h := range part.Harness {
+			hfiles = append(hfiles, filepath.Join(verifDir, h))
 		}
-		cfg := defaultConfig()
-		applyCfg(&cfg, rs.Cfg)
-		ts := rs.Quick
-		if tier == "thorough" {
-			ts = rs.Thorough
-			if ts.Params == nil && ts.Cfg == nil {
-				ts = rs.Quick
-			}
-			cfg.TimeBudgetS = 3000
-			cfg.SolverTimeoutMs = 60000
-		}
-		applyCfg(&cfg, ts.Cfg)
-		cfg.Params = map[string]int64{}
-		for k, v := range ts.Params {
-			cfg.Params[k] = v
-		}
-		eng.cfg = cfg
-		entry := eng.hpkg.Func(rs.Entry)
-		if entry == nil {
-			fatal2("harness entry not found: " + rs.Entry)
-		}
-		te := time.Now()
-		ex, err := Explore(eng, entry, seed)
+		ov, err := harnessOverlay(part.Package, part.PkgName, rt, hfiles)
 		if err != nil {
 			fatal2(err.Error())
 		}
-		er := &entryResult{Entry: rs.Entry, Ex: ex, Params: cfg.Params, Cfg: cfg, WallS: time.Since(te).Seconds()}
-		results = append(results, er)
-		fmt.Printf("[%s %s] %s: paths=%d outcomes=%s decisions=%d queries=%d solver=%.1fs wall=%.1fs\n", prop, tier, rs.Entry,
-			ex.paths, fmtOutcomes(ex.outcomes), ex.decs, ex.solverQ, ex.solverT.Seconds(), er.WallS)
-		if ex.stop && ex.stopWhy != "many distinct findings" {
-			inconclusive = append(inconclusive, rs.Entry+": exploration stopped: "+ex.stopWhy)
+		eng, err = LoadEngine(part.Package, ov)
+		if err != nil {
+			fatal2(err.Error())
 		}
-		for _, e := range ex.errs {
-			inconclusive = append(inconclusive, rs.Entry+": "+e)
-		}
-		if ex.outcomes[OInconclusive] > 0 {
-			inconclusive = append(inconclusive, fmt.Sprintf("%s: %d paths inconclusive (solver unknown/timeout)", rs.Entry, ex.outcomes[OInconclusive]))
-		}
-		// findings -> native replay
-		keys := make([]string, 0, len(ex.findings))
-		for k := range ex.findings {
-			keys = append(keys, k)
-		}
-		sort.Strings(keys)
-		for i, k := range keys {
-			f := ex.findings[k]
-			dir := filepath.Join(verifDir, "replays", prop, fmt.Sprintf("%s-%d", rs.Entry, i+1))
-			ok, out := writeAndRunReplay(dir, &spec, rs.Entry, f, cfg.Params)
-			replayed++
-			if !ok {
-				inconclusive = append(inconclusive, fmt.Sprintf("%s: counterexample (%s: %s — %s) did not reproduce natively; see %s (%s)", rs.Entry, f.Outcome, f.Label, f.Msg, dir, firstLine(out)))
-				fmt.Printf("UNCONFIRMED property=%s entry=%s %s: %s (%s)\n", prop, rs.Entry, f.Outcome, f.Label, f.Msg)
+		loadT += eng.loadTime
+		for _, rs := range part.Runs {
+			if only != "" && rs.Entry != only {
 				continue
 			}
-			if kf := known.match(prop, f); kf != nil {
-				knownHits++
-				fmt.Printf("KNOWN-FINDING: property=%s %s\n", prop, kf.What)
-				continue
+			cfg := defaultConfig()
+			applyCfg(&cfg, rs.Cfg)
+			ts := rs.Quick
+			if tier == "thorough" {
+				ts = rs.Thorough
+				if ts.Params == nil && ts.Cfg == nil {
+					ts = rs.Quick
+				}
+				cfg.TimeBudgetS = 3000
+				cfg.SolverTimeoutMs = 60000
 			}
-			violations++
-			vioLines = append(vioLines, fmt.Sprintf("VIOLATION property=%s replay=%s", prop, filepath.Join(dir, "replay.sh")))
-			fmt.Printf("  -> %s in %s: %s — %s [%d paths] at %s\n", f.Outcome, rs.Entry, f.Label, f.Msg, ex.fcount[k], f.Pos)
-		}
-		// vacuity witnesses
-		if len(ex.findings) == 0 {
-			for _, c := range rs.Covers {
-				if ex.covers[c] == 0 {
-					er.Missing = append(er.Missing, c)
-					inconclusive = append(inconclusive, fmt.Sprintf("%s: vacuity witness %q has no feasible path", rs.Entry, c))
+			applyCfg(&cfg, ts.Cfg)
+			cfg.Params = map[string]int64{}
+			for k, v := range ts.Params {
+				cfg.Params[k] = v
+			}
+			eng.cfg = cfg
+			entry := eng.hpkg.Func(rs.Entry)
+			if entry == nil {
+				fatal2("harness entry not found: " + rs.Entry)
+			}
+			te := time.Now()
+			ex, err := Explore(eng, entry, seed)
+			if err != nil {
+				fatal2(err.Error())
+			}
+			er := &entryResult{Entry: rs.Entry, Ex: ex, Params: cfg.Params, Cfg: cfg, WallS: time.Since(te).Seconds()}
+			results = append(results, er)
+			fmt.Printf("[%s %s] %s: paths=%d outcomes=%s decisions=%d queries=%d solver=%.1fs wall=%.1fs\n", prop, tier, rs.Entry,
+				ex.paths, fmtOutcomes(ex.outcomes), ex.decs, ex.solverQ, ex.solverT.Seconds(), er.WallS)
+			if ex.stop && ex.stopWhy != "many distinct findings" {
+				inconclusive = append(inconclusive, rs.Entry+": exploration stopped: "+ex.stopWhy)
+			}
+			for _, e := range ex.errs {
+				inconclusive = append(inconclusive, rs.Entry+": "+e)
+			}
+			if ex.outcomes[OInconclusive] > 0 {
+				inconclusive = append(inconclusive, fmt.Sprintf("%s: %d paths inconclusive (solver unknown/timeout)", rs.Entry, ex.outcomes[OInconclusive]))
+			}
+			// findings -> native replay
+			keys := make([]string, 0, len(ex.findings))
+			for k := range ex.findings {
+				keys = append(keys, k)
+			}
+			sort.Strings(keys)
+			for i, k := range keys {
+				f := ex.findings[k]
+				dir := filepath.Join(verifDir, "replays", prop, fmt.Sprintf("%s-%d", rs.Entry, i+1))
+				ok, out := writeAndRunReplay(dir, part, rs.Entry, f, cfg.Params)
+				replayed++
+				if !ok {
+					inconclusive = append(inconclusive, fmt.Sprintf("%s: counterexample (%s: %s — %s) did not reproduce natively; see %s (%s)", rs.Entry, f.Outcome, f.Label, f.Msg, dir, firstLine(out)))
+					fmt.Printf("UNCONFIRMED property=%s entry=%s %s: %s (%s)\n", prop, rs.Entry, f.Outcome, f.Label, f.Msg)
+					continue
+				}
+				if kf := known.match(prop, f); kf != nil {
+					knownHits++
+					fmt.Printf("KNOWN-FINDING: property=%s %s\n", prop, kf.What)
+					continue
+				}
+				violations++
+				vioLines = append(vioLines, fmt.Sprintf("VIOLATION property=%s replay=%s", prop, filepath.Join(dir, "replay.sh")))
+				fmt.Printf("  -> %s in %s: %s — %s [%d paths] at %s\n", f.Outcome, rs.Entry, f.Label, f.Msg, ex.fcount[k], f.Pos)
+			}
+			// vacuity witnesses
+			if len(ex.findings) == 0 {
+				for _, c := range rs.Covers {
+					if ex.covers[c] == 0 {
+						er.Missing = append(er.Missing, c)
+						inconclusive = append(inconclusive, fmt.Sprintf("%s: vacuity witness %q has no feasible path", rs.Entry, c))
+					}
+				}
+			}
+			// translator validation on sampled passing paths
+			if len(ex.valid) > 0 {
+				n, msg := validateSamples(part, rs.Entry, ex.valid, cfg.Params)
+				er.Validated = n
+				if msg != "" {
+					inconclusive = append(inconclusive, rs.Entry+": translator validation: "+msg)
 				}
 			}
 		}
-		// translator validation on sampled passing paths
-		if len(ex.valid) > 0 {
-			n, msg := validateSamples(&spec, rs.Entry, ex.valid, cfg.Params)
-			er.Validated = n
-			if msg != "" {
-				inconclusive = append(inconclusive, rs.Entry+": translator validation: "+msg)
-			}
-		}
 	}
+	if len(results) == 0 {
+		fatal2("no harness entry was run")
+	}
+	eng.loadTime = loadT
 	wall := time.Since(t0).Seconds()
 	writeEvidence(prop, tier, seed, &spec, eng, results, violations, knownHits, inconclusive, replayed, wall)
 	for _, l := range vioLines {
 		fmt.Println(l)
 	}
+	for _, m := range inconclusive {
+		fmt.Println("INCONCLUSIVE:", m)
+	}
 	if violations > 0 {
 		return 1
 	}
 	if len(inconclusive) > 0 {
-		for _, m := range inconclusive {
-			fmt.Println("INCONCLUSIVE:", m)
-		}
 		return 2
 	}
 	fmt.Printf("OK property=%s tier=%s wall=%.1fs\n", prop, tier, wall)
